@@ -282,6 +282,18 @@ func runBatchCase(c batchCase, st *batchStats) *fail {
 		p.s.Send(refcodec.Encode(m))
 		s.sent = true
 		tagReqs[r.Tag]++
+		if strings.HasPrefix(r.Kind, "flush") && s.wantAfter < 0 {
+			// a flush that names nothing in flight is answered at once; wait for
+			// it before any later request may re-use the tag it names (the server
+			// would otherwise be entitled to make the flush wait for that request)
+			ok, f := p.waitFor(r.Tag, tagReqs[r.Tag], 20*time.Second)
+			if f != nil {
+				return f
+			}
+			if !ok {
+				return failf("flush-not-answered-at-once", "request %d (%s) names a tag that is not in flight but was not answered within 20 s: %s", i, m, desc())
+			}
+		}
 		if s.gated {
 			select {
 			case <-s.gate.Entered:
